@@ -33,3 +33,48 @@ package imagehash
 //@   ensures [C16] len(buf) >= 32 ==> (*ph)[1] == le64(buf, 8)
 //@   ensures [C16] len(buf) >= 32 ==> (*ph)[2] == le64(buf, 16)
 //@   ensures [C16] len(buf) >= 32 ==> (*ph)[3] == le64(buf, 24)
+
+// ---- C19: a perceptual hash is its defined function of the pixels ----
+// bminx/bminy/bmaxx/bmaxy are the ghost attributes of image.Image.Bounds() (/verif/specs/deps.spec).
+//@ spec imgW(img) = gconst("bmaxx", img) - gconst("bminx", img)
+//@ spec imgH(img) = gconst("bmaxy", img) - gconst("bminy", img)
+
+//@ pool pixelsPool64 *[]float64
+//@ pool pixelsPool256 *[]float64
+//@ pool pixelsPool32 *[]float32
+//@ pool pixelsPool256Alt *[]float32
+
+// Size guard: a hash is produced exactly for non-nil images of the required size; bit assembly: bit (63 - k) of the hash
+// is set iff coefficient k (row-major, as returned by the DCT kernel) is strictly above the single threshold `median`.
+//@ func NewPHash64
+//@   props C19 C04
+//@   entry
+//@   ghost fl [64]float64 = flattens
+//@   ghost med float64 = median
+//@   ensures [C19] err == nil <==> img != nil && imgW(img) == 64 && imgH(img) == 64
+//@   ensures [C19] err != nil ==> phash == 0
+//@   ensures [C19] err == nil ==> forall k int :: 0 <= k && k < 64 ==> (((uint64(phash) >> uint(63-k)) & 1) == 1) == (fl[k] > med)
+//@   loop 0 invariant -1 <= rangeindex && rangeindex <= 63
+//@   loop 0 invariant forall k int :: 0 <= k && k < 64 ==> (((uint64(phash) >> uint(63-k)) & 1) == 1) == (k <= rangeindex && flattens[k] > median)
+
+//@ func NewPHash64Alt
+//@   props C19 C04
+//@   entry
+//@   ghost fl [64]float32 = flattens
+//@   ghost med float32 = median
+//@   ensures [C19] err == nil <==> img != nil && imgW(img) == 64 && imgH(img) == 64
+//@   ensures [C19] err != nil ==> phash == 0
+//@   ensures [C19] err == nil ==> forall k int :: 0 <= k && k < 64 ==> (((uint64(phash) >> uint(63-k)) & 1) == 1) == (fl[k] > med)
+//@   loop 0 invariant -1 <= rangeindex && rangeindex <= 63
+//@   loop 0 invariant forall k int :: 0 <= k && k < 64 ==> (((uint64(phash) >> uint(63-k)) & 1) == 1) == (k <= rangeindex && flattens[k] > median)
+
+// Distances are Hamming distances (no truncation: at most 64 resp. 256).
+//@ func PHash64.Distance
+//@   props C19
+//@   pure
+//@   ensures [C19] int(r0) == popcount64(uint64(ph) ^ uint64(hash))
+
+//@ func PHash256.Distance
+//@   props C19
+//@   pure
+//@   ensures [C19] int(r0) == popcount64(ph[0] ^ hash[0]) + popcount64(ph[1] ^ hash[1]) + popcount64(ph[2] ^ hash[2]) + popcount64(ph[3] ^ hash[3])
